@@ -754,6 +754,35 @@ fn observe(g: &mut G, rng: &Shared, m: &Model, stats: &mut std::collections::BTr
     if !close(t.p_to_flip, expect_p) {
         fails.push(format!("p_to_flip {} but Π(W_aft/W_bef)·Π(ising) on the real weights = {}", t.p_to_flip, expect_p));
     }
+    // --- F12 regression through the RVB path: force one rotation draw to exactly 0.0; the re-bonded
+    // operator must still have positive weight (BondContainer::get_random skips zero-weight keys)
+    if t.accepted && d.k > 0 && log.len() >= d.k {
+        let mut script = log.clone();
+        let which = log.len() - d.k + (log.len() % d.k);
+        script[which] = 0;
+        let mut g0 = g_before.clone();
+        rng.script(&script);
+        let r0 = catch(std::panic::AssertUnwindSafe(|| g0.single_rvb_sweep(Some(1))));
+        rng.free();
+        let _ = take_trace();
+        match r0 {
+            Err(msg) => fails.push(format!("with a rotation draw forced to 0.0 the update panicked: {}", msg)),
+            Ok(_) => {
+                let s0 = snap(&g0);
+                for (p, o) in s0.slots.iter().enumerate() {
+                    if let Some(o) = o {
+                        if !(weight_of(&g0, o) > 0.0) {
+                            fails.push(format!("F12 via RVB: rotation draw 0.0 stored an operator of weight 0 at slot {} (bond {})", p, o.bond));
+                        }
+                    }
+                }
+                if propagate_check(g0.get_manager_ref(), &s0.state).map(|x| x != s0.state).unwrap_or(true) {
+                    fails.push("with a rotation draw forced to 0.0 the result is not a consistent configuration".into());
+                }
+                *stats.entry("rvb_rotation_word0_probes".into()).or_insert(0) += 1;
+            }
+        }
+    }
     // --- proposal symmetry and detailed balance on the real pair
     let mut p2tok = "-".to_string();
     if t.accepted {
